@@ -263,6 +263,15 @@ func (h *handler1) handleClientPublish(ctx context.Context, snPublish *snPkts1.P
 	default:
 		return fmt.Errorf("invalid topic id type %d", snPublish.TopicIDType)
 	}
+	if !isValidMqttTopicName(topic) {
+		return fmt.Errorf("invalid topic name in %v: %q", snPublish, topic)
+	}
+	if mqPublish.Qos == 0 && mqPublish.Dup {
+		return fmt.Errorf("DUP flag set in QoS 0 packet: %v", snPublish)
+	}
+	if mqPublish.Qos > 0 && msgID == 0 {
+		return fmt.Errorf("zero MsgID in QoS %d packet: %v", mqPublish.Qos, snPublish)
+	}
 	if snPublish.QOS == 1 {
 		h.transactions.Store(msgID, newClientPublishQOS1Transaction(ctx, h, msgID, snPublish.TopicID))
 	}
@@ -556,6 +565,12 @@ func (h *handler1) handleConnect(ctx context.Context, snConnect *snPkts1.Connect
 		return h.snSend(reply)
 	}
 
+	// ClientID is translated to a MQTT "UTF-8 encoded string".
+	if !isValidMqttString(string(snConnect.ClientID)) {
+		reply := snPkts1.NewConnack(snPkts1.RC_NOT_SUPPORTED)
+		return h.snSend(reply)
+	}
+
 	h.keepAlive = snConnect.Duration
 	h.clientID = string(snConnect.ClientID)
 
@@ -587,6 +602,13 @@ func (h *handler1) handleConnect(ctx context.Context, snConnect *snPkts1.Connect
 }
 
 func (h *handler1) handleSubscribe(ctx context.Context, snSubscribe *snPkts1.Subscribe) error {
+	if snSubscribe.QOS > 2 || snSubscribe.MessageID() == 0 {
+		return fmt.Errorf("invalid QoS or MsgID in %v", snSubscribe)
+	}
+	if snSubscribe.TopicIDType == snPkts1.TIT_STRING && !isValidMqttTopicFilter(snSubscribe.TopicName) {
+		return fmt.Errorf("invalid topic filter in %v", snSubscribe)
+	}
+
 	var topic string
 	// From MQTT-SN specification v. 1.2, chapter 5.4.16 SUBACK:
 	// 	TopicID [...] [is] not relevant in case of subscriptions to a short topic name or to a topic name which
@@ -626,6 +648,9 @@ func (h *handler1) handleSubscribe(ctx context.Context, snSubscribe *snPkts1.Sub
 		topic = snPkts.DecodeShortTopic(snSubscribe.TopicID)
 		// topicID remains zero.
 	}
+	if !isValidMqttTopicFilter(topic) {
+		return fmt.Errorf("invalid topic filter in %v: %q", snSubscribe, topic)
+	}
 
 	msgID := snSubscribe.MessageID()
 	transaction := newSubscribeTransaction(ctx, h, msgID, topicID)
@@ -652,6 +677,9 @@ func (h *handler1) handleUnsubscribe(snUnsubscribe *snPkts1.Unsubscribe) error {
 		}
 	case snPkts1.TIT_SHORT:
 		topic = snPkts.DecodeShortTopic(snUnsubscribe.TopicID)
+	}
+	if snUnsubscribe.MessageID() == 0 || !isValidMqttTopicFilter(topic) {
+		return fmt.Errorf("invalid MsgID or topic filter in %v: %q", snUnsubscribe, topic)
 	}
 
 	mqUnsubscribe := mqPkts.NewControlPacket(mqPkts.Unsubscribe).(*mqPkts.UnsubscribePacket)
